@@ -2,7 +2,7 @@ import LentilVerif.Model.Energy
 import LentilVerif.Gen.BlurWiring
 /-! Executable model of the Fourier-domain blurs (C19): `detector.pixel`, `convolvable.jitter`, `convolvable.smear`.
 `out = |ifft2(fft2(img) · kernel)|` with the kernel built from the index map of `np.fft.fftfreq` (rows ↔ f_y, columns ↔
-f_x); jitter and smear renormalise to the input total. `np.fft.fft2/ifft2` are contracts: the plain DFT pair with origin
+f_x); jitter and smear renormalise to the input total unless the blurred frame has zero total (guard regenerated from the source). `np.fft.fft2/ifft2` are contracts: the plain DFT pair with origin
 at index 0, written with the shared `dft2` (offset `⌊n/2⌋`, shift `-⌊n/2⌋` cancel the centring). Generic; Mathlib-free. -/
 namespace Lentil
 
@@ -14,6 +14,8 @@ class BlurLike (R : Type) where
   sin : R → R
   cos : R → R
   pi : R
+  /-- the test `x == 0` of the zero-total guard -/
+  isZero : R → Bool
 
 /-- `|z|` of a complex value (`np.abs`) -/
 class AbsLike (K : Type) (R : Type) where
@@ -91,6 +93,12 @@ def renormWith (e : R → R → R → R) (img out : Arr R) : Arr R :=
   let T := arrSum out
   { out with get := fun i j => e (out.get i j) S T }
 
+/-- the closing statements of `jitter` / `smear` as regenerated: when the source guards the rescaling with
+`if np.sum(out) == 0: return out` (`guard`) and the blurred frame has zero total, it is returned as it is; otherwise it is
+rescaled by the regenerated expression -/
+def renormGuarded (guard : Bool) (e : R → R → R → R) (img out : Arr R) : Arr R :=
+  if guard && BlurLike.isZero (arrSum out) then out else renormWith e img out
+
 section stages
 variable (K : Type) [Add K] [Mul K] [Zero K] [CxLike K R] [AbsLike K R]
 /-- the four stages the sources compose (each materialised once): `np.abs`, `np.fft.ifft2`, `np.fft.fft2` of the real image, `· * kernel` -/
@@ -103,18 +111,18 @@ end stages
 /-- `lentil.detector.pixel(img, oversample)`: kernel, composition and (absent) renormalisation as regenerated from the source -/
 def pixel (K : Type) [Add K] [Mul K] [Zero K] [CxLike K R] [AbsLike K R] (img : Arr R) (os : R) : Arr R :=
   let out := Gen.bwPixelApply (stAbs (R := R) K) (stIfft2 (R := R) K) (stFft2 (R := R) K) (stMul (R := R) K) img (pixelKernel img.s0 img.s1 os)
-  if Gen.bwPixelRenorm then renormWith Gen.bwPixelRenormExpr img out else out
+  if Gen.bwPixelRenorm then renormGuarded Gen.bwPixelRenormGuard Gen.bwPixelRenormExpr img out else out
 
 /-- `lentil.convolvable.jitter(img, scale, pixelscale, oversample)` -/
 def jitter (K : Type) [Add K] [Mul K] [Zero K] [CxLike K R] [AbsLike K R] (img : Arr R) (scale pixelscale os : R) : Arr R :=
   let out := Gen.bwJitterApply (stAbs (R := R) K) (stIfft2 (R := R) K) (stFft2 (R := R) K) (stMul (R := R) K) img (jitterKernel img.s0 img.s1 scale pixelscale os)
-  if Gen.bwJitterRenorm then renormWith Gen.bwJitterRenormExpr img out else out
+  if Gen.bwJitterRenorm then renormGuarded Gen.bwJitterRenormGuard Gen.bwJitterRenormExpr img out else out
 
 /-- `lentil.convolvable.smear(img, distance, angle, pixelscale, oversample)` (angle in degrees, given) -/
 def smear (K : Type) [Add K] [Mul K] [Zero K] [CxLike K R] [AbsLike K R] (img : Arr R) (distance angleDeg pixelscale os : R) :
     Arr R :=
   let out := Gen.bwSmearApply (stAbs (R := R) K) (stIfft2 (R := R) K) (stFft2 (R := R) K) (stMul (R := R) K) img (smearKernel img.s0 img.s1 distance angleDeg pixelscale os)
-  if Gen.bwSmearRenorm then renormWith Gen.bwSmearRenormExpr img out else out
+  if Gen.bwSmearRenorm then renormGuarded Gen.bwSmearRenormGuard Gen.bwSmearRenormExpr img out else out
 
 /-- `smear(img, distance, angle=None, …)`: the direction is one `uniform(0, 2π)` draw `u ∈ [0, 1)` of NumPy's global generator; kernel
 as regenerated from the `angle is None` branch -/
@@ -124,7 +132,7 @@ def smearKernelNone (s0 s1 : Int) (distance pixelscale os u : R) : Arr R :=
       fftfreq s0 s1 distance pixelscale os u }
 def smearNone (K : Type) [Add K] [Mul K] [Zero K] [CxLike K R] [AbsLike K R] (img : Arr R) (distance pixelscale os u : R) : Arr R :=
   let out := Gen.bwSmearApply (stAbs (R := R) K) (stIfft2 (R := R) K) (stFft2 (R := R) K) (stMul (R := R) K) img (smearKernelNone img.s0 img.s1 distance pixelscale os u)
-  if Gen.bwSmearRenorm then renormWith Gen.bwSmearRenormExpr img out else out
+  if Gen.bwSmearRenorm then renormGuarded Gen.bwSmearRenormGuard Gen.bwSmearRenormExpr img out else out
 
 /-- `detector.pixelate(img, oversample)`: output shape of `rescale(pixel(img, os), scale)` = `ceil(n · scale)` per axis, the scale as
 regenerated from the call (`1/oversample`); the interpolation itself (`scipy.ndimage.map_coordinates`, order 3) is not modelled -/
